@@ -130,6 +130,9 @@ class EvalCtx(object):
                 cname = value.get_attr(self, ast_attr.attr)
         elif node_type is ImportedName:
             iname = node  # type: ImportedName # type: ignore[assignment]
+            if any(iname is r for r in result):
+                # import cycle between modules
+                return result
             result.append(iname)
             cname = iname.resolve(self)
         else:
